@@ -202,12 +202,35 @@ def layout(typ, r, c):
     return offs, sizes, sum(sizes), el
 
 
-def check_terms(typ, r, c, e, s, m):
-    """Residual (relative) of the documented equation for one standard at one frequency.
-    e: saved error terms; s: p x p S; m: r x c measured.  Returns (relative residual, detail)."""
+def pmax(a, b):
+    """out[i][j] = max_k |a[i][k]| |b[k][j]|: the largest term of cell (i, j) of the product a b"""
+    n, k, m = len(a), len(b), len(b[0]) if b else 0
+    out = [[0.0] * m for _ in range(n)]
+    for i in range(n):
+        for l in range(k):
+            x = abs(a[i][l])
+            if x != 0:
+                bl = b[l]
+                oi = out[i]
+                for j in range(m):
+                    y = x * abs(bl[j])
+                    if y > oi[j]:
+                        oi[j] = y
+    return out
+
+
+TERMS_FLOOR = 1e-3
+
+
+def terms_equations(typ, r, c, e, s, m):
+    """The scalar equations of the documented matrix equation for one standard at one frequency, with the saved
+    error terms e (s: p x p S of the standard on all ports; m: r x c measured).  Returns a list of
+    (row, |residual|, scale): scale = the largest term magnitude of THAT equation (products coefficient x saved
+    term; the measured value and the leakage term subtracted from it counted separately), row = row of the
+    matrix equation (the receiver row for the T types, UE14 and E12)."""
     p = max(r, c)
     if typ == "E12":
-        worst = 0.0
+        eqs = []
         nt = 3 * r
         for col in range(c):
             el = e[col * nt: col * nt + r]
@@ -217,23 +240,25 @@ def check_terms(typ, r, c, e, s, m):
             v = mmul(mmul(diag(er), s), mmul(x, [[1 + 0j if i == col else 0j] for i in range(p)]))
             for i in range(r):
                 pred = el[i] + v[i][0]
-                worst = max(worst, abs(pred - m[i][col]) / max(1.0, abs(m[i][col])))
-        return worst
+                eqs.append((i, abs(pred - m[i][col]), max(abs(el[i]), abs(v[i][0]), abs(m[i][col]))))
+        return eqs
     offs, sizes, nt, nel = layout(typ, r, c)
     if typ == "UE14":
         elv = e[c * nt: c * nt + nel]
     else:
         elv = e[nt: nt + nel]
     mp = [list(row) for row in m]
+    mabs = [[abs(x) for x in row] for row in m]          # |m| + |el|: magnitude of the terms behind m - el
     if nel:
         k = 0
         for i in range(r):
             for j in range(c):
                 if i != j:
                     mp[i][j] -= elv[k]
+                    mabs[i][j] += abs(elv[k])
                     k += 1
     if typ == "UE14":
-        worst = 0.0
+        eqs = []
         for col in range(c):
             b = col * nt
             um = e[b: b + r]
@@ -242,34 +267,67 @@ def check_terms(typ, r, c, e, s, m):
             us = e[b + 2 * r + 1]
             lhs = [um[i] * mp[i][col] + (ui if i == col else 0) for i in range(p)]
             y = [[ux[i] * mp[i][col] + (us if i == col else 0)] for i in range(p)]
+            ya = [abs(ux[i]) * mabs[i][col] + (abs(us) if i == col else 0.0) for i in range(p)]
             rhs = mmul(s, y)
-            scale = max([abs(um[i] * mp[i][col]) for i in range(p)] + [abs(ui), abs(us)] +
-                        [abs(ux[i] * mp[i][col]) for i in range(p)] + [1e-300])
             for i in range(p):
-                worst = max(worst, abs(lhs[i] - rhs[i][0]) / scale)
-        return worst
+                scale = max([abs(um[i]) * mabs[i][col], abs(ui) if i == col else 0.0] +
+                            [abs(s[i][k]) * ya[k] for k in range(p)])
+                eqs.append((i, abs(lhs[i] - rhs[i][0]), scale))
+        return eqs
     blk = [e[offs[i]: offs[i] + sizes[i]] for i in range(4)]
 
     def tomat(v, rows, cols, full):
         if full:
             return [[v[i * cols + j] for j in range(cols)] for i in range(rows)]
         return diag(v, rows, cols)
+
+    def cells(res, scales):
+        return [(i, abs(res[i][j]), max(sm[i][j] for sm in scales))
+                for i in range(len(res)) for j in range(len(res[0]))]
     full = is_16(typ)
     if is_t(typ):
+        # Ts S + Ti = M Tx S + M Tm      (r x p)
         ts, ti = tomat(blk[0], r, p, full), tomat(blk[1], r, p, full)
         tx, tm = tomat(blk[2], c, p, full), tomat(blk[3], c, p, full)
+        xs = mmul(tx, s)
         t1, t2 = mmul(ts, s), ti
-        t3, t4 = mmul(mp, mmul(tx, s)), mmul(mp, tm)
+        t3, t4 = mmul(mp, xs), mmul(mp, tm)
         res = msub(madd(t1, t2), madd(t3, t4))
-        scale = max(mnorm(t1), mnorm(t2), mnorm(t3), mnorm(t4), 1e-300)
-        return mnorm(res) / scale
+        return cells(res, [pmax(ts, s), pmax(ti, ident(p)), pmax(mabs, xs), pmax(mabs, tm)])
+    # Um M + Ui = S (Ux M + Us)      (p x c)
     um, ui = tomat(blk[0], p, r, full), tomat(blk[1], p, c, full)
     ux, us = tomat(blk[2], p, r, full), tomat(blk[3], p, c, full)
     t1, t2 = mmul(um, mp), ui
     t3, t4 = mmul(s, mmul(ux, mp)), mmul(s, us)
     res = msub(madd(t1, t2), madd(t3, t4))
-    scale = max(mnorm(t1), mnorm(t2), mnorm(t3), mnorm(t4), 1e-300)
-    return mnorm(res) / scale
+    ya = pmax(ux, mabs)
+    return cells(res, [pmax(um, mabs), pmax(ui, ident(c)), pmax(s, ya), pmax(s, us)])
+
+
+def worst_relative(eq_lists, floor=TERMS_FLOOR):
+    """Worst relative residual over the equations of several standards at one frequency (eq_lists: one list of
+    terms_equations per standard).  Every residual is divided by the largest term magnitude of its own equation,
+    but by no less than floor x the largest term magnitude met in the same row over all the standards: an equation
+    all of whose terms vanish (a match seen through a receiver without directivity error: 0 = el + er 0) carries
+    the rounding error of the solved terms, which is relative to the level of that row, not to zero.
+    Returns (worst, index of the standard)."""
+    rowmax = {}
+    for eqs in eq_lists:
+        for row, res, scale in eqs:
+            if scale > rowmax.get(row, 0.0):
+                rowmax[row] = scale
+    worst, at = 0.0, None
+    for k, eqs in enumerate(eq_lists):
+        for row, res, scale in eqs:
+            d = res / max(scale, floor * rowmax.get(row, 0.0), 1e-300)
+            if not d <= worst:
+                worst, at = d, k
+    return worst, at
+
+
+def check_terms(typ, r, c, e, s, m):
+    """worst relative residual of the documented equation for one standard at one frequency (see worst_relative)"""
+    return worst_relative([terms_equations(typ, r, c, e, s, m)])[0]
 
 
 # ----------------------------------------------------------------------------- standards
@@ -587,6 +645,112 @@ def ab_of(typ, m, a):
     return mmul(m, a)
 
 
+# ----------------------------------------------------------------------------- magnitude scaling
+# The networks of gen_enet have entries of order 1, hence measured values of order 1: an ABSOLUTE threshold
+# inside the solver / apply / LU / QR (cabs(x) < 1e-10, == 0 after rounding, an absolute convergence test)
+# would go unnoticed.  draw_scale turns a scenario into one of the same calibration problem seen through
+# receivers / a source / reference channels of another level.  The S of the standards and of the DUT is never
+# scaled: the calibration has to absorb the levels and return the same S.
+#   "rx"   receiver gain: Er and El times g (every measured value, standards and DUT, is multiplied by g)
+#   "src"  source level: Et times g (El, i.e. directivity and leakage, stays of order 1: tracking terms and
+#          directivity now differ by the factor g)
+#   "rows" per-receiver gains: row i of Er and of El times g_i, independent exponents (a diagonal / full Er stays
+#          diagonal / full, a diagonal El stays diagonal: every type represents the scaled network)
+#   "ab"   a/b form only: the reference (a) and the measured (b) matrices of every standard given in a/b form,
+#          and of the DUT when it is applied in a/b form, both times g (own exponent per matrix pair); M = b a^-1
+#          is unchanged
+# Exponent ranges.  "rx" and "ab" are absorbed exactly (errors stay at 1e-15 at +-6, +-9 and +-12 decades for every
+# type, 8 seeds per point), so +-12 decades: an absolute threshold of 1e-9 on a pivot or a measured value is within
+# reach (with +-6 it is not: pivots stay above 1e-7).  Two of the modes change the conditioning of the calibration problem itself, smoothly (no
+# threshold; measured on the library, 12-16 seeds per point):
+#  * "src": tracking terms 10^k times the directivity / leakage terms.  k < 0: the DUT's S comes from m - el, a
+#    cancellation of 10^-k (apply error 2e-12 at k = -4, 2e-10 at k = -6; the perturbation test moves by 5e-9 at -4,
+#    5e-7 at -6); k > 0: directivity is known to eps 10^k relative to itself, the equations of a match (terms of
+#    order 1 among terms of order 10^k) show a relative residual of 1e-10 at k = 4, 8e-9 at k = 6.  Range +-4.
+#  * "rows" on the T types (T8, TE10, T16): every T equation of row i carries the factor g_i (Ts, Ti row i), so
+#    the linear system is row-scaled by the receiver gains and the error of the solution grows like
+#    eps max(g) / min(g): 1e-11 at 4 decades of spread, 1e-9 at 6, 1e-7 at 8, 1e-4 at 12 (terms residual and
+#    applied S alike; the perturbation test moves the same way).  The U types and UE14 / E12 turn receiver gains
+#    into column scalings of the unknowns (Um G^-1), which LU and QR absorb: errors stay at 1e-15 for +-6
+#    decades per row.  T types: a common exponent in +-4 and per-row deviations in +-2 (spread <= 4 decades);
+#    other types: independent exponents in +-6.
+SCALE_MODES = ["rx", "src", "rows", "ab"]
+SCALE_KMAX = {"rx": 12.0, "src": 4.0, "rows": 6.0, "ab": 12.0}
+ROWS_T_COMMON, ROWS_T_DEV = 4.0, 2.0
+
+
+def scaled_enet(enet, row_g, et_g):
+    """the network with receiver gains row_g[i] (row i of Er and El) and source level et_g (Et)"""
+    p = len(row_g)
+    if enet["kind"] == "col":
+        cols = []
+        for e in enet["cols"]:
+            cols.append({"er": [e["er"][i] * row_g[i] for i in range(p)], "em": list(e["em"]),
+                         "et": e["et"] * et_g, "el": [e["el"][i] * row_g[i] for i in range(p)]})
+        return {"kind": "col", "cols": cols}
+    return {"kind": "common",
+            "er": [[x * row_g[i] for x in enet["er"][i]] for i in range(p)],
+            "el": [[x * row_g[i] for x in enet["el"][i]] for i in range(p)],
+            "et": mscale(enet["et"], et_g),
+            "em": [list(r) for r in enet["em"]]}
+
+
+def has_ab(sc):
+    return sc.apply_form == "ab" and apply_accepts(sc.r, sc.c) or any(st.form == "ab" for st in sc.stds)
+
+
+def draw_scale(rng, sc, mode=None, exponents=None):
+    """Scale the raw measurements of scenario sc (made by gen_scenario, not scaled yet) in one of SCALE_MODES;
+    all draws from rng.  Records sc.scale = {"mode", "exponents"} (shown by describe) and returns it.
+    exponents (replay / bisection): the exponents to use instead of drawn ones, in the order they would be drawn."""
+    assert getattr(sc, "scale", None) is None
+    modes = [m for m in SCALE_MODES if m != "ab" or has_ab(sc)]
+    if mode is None or mode not in modes:
+        mode = rng.choice(modes)
+    kmax = SCALE_KMAX[mode]
+
+    given = list(exponents) if isinstance(exponents, (list, tuple)) else ([exponents] * 64 if exponents is not None else None)
+
+    def expo():
+        if given is not None:
+            return given.pop(0)
+        return round(rng.uniform(-kmax, kmax), 3)
+    p = sc.p
+    if mode == "ab":
+        ks = []
+        for st in sc.stds:
+            if st.form == "ab":
+                k = expo()
+                st.A = [mscale(a, 10.0 ** k) for a in st.A]
+                ks.append(k)
+            else:
+                ks.append(None)
+        ka = None
+        if sc.apply_form == "ab" and apply_accepts(sc.r, sc.c):
+            ka = expo()
+            sc.apply_A = [mscale(a, 10.0 ** ka) for a in sc.apply_A]
+        sc.scale = {"mode": mode, "exponents": {"standards": ks, "apply": ka}}
+        return sc.scale
+    if mode == "rx":
+        k = expo()
+        row_g, et_g, ex = [10.0 ** k] * p, 1.0, k
+    elif mode == "src":
+        k = expo()
+        row_g, et_g, ex = [1.0] * p, 10.0 ** k, k
+    elif is_t(sc.typ) and given is None:
+        k0 = rng.uniform(-ROWS_T_COMMON, ROWS_T_COMMON)
+        ex = [round(k0 + rng.uniform(-ROWS_T_DEV, ROWS_T_DEV), 3) for _ in range(p)]
+        row_g, et_g = [10.0 ** k for k in ex], 1.0
+    else:
+        ex = [expo() for _ in range(p)]
+        row_g, et_g = [10.0 ** k for k in ex], 1.0
+    sc.enets = [scaled_enet(e, row_g, et_g) for e in sc.enets]
+    for st in sc.stds:
+        st.Mfull = [measure(sc.enets[f], st.Sfull[f], sc.r, sc.c) for f in range(sc.F)]
+    sc.scale = {"mode": mode, "exponents": ex}
+    return sc.scale
+
+
 # ----------------------------------------------------------------------------- script
 def hx(x):
     return float(x).hex()
@@ -833,11 +997,15 @@ def parse_output(out):
 
 
 def describe(sc):
-    return {"type": sc.typ, "rows": sc.r, "cols": sc.c, "F": sc.F,
-            "standards": ["%s%s ports=%s S=%dx%d M=%dx%d %s%s" % (
-                st.fn, "" if st.mapflag else "(NULL map)", st.ports, st.srows, st.scols, st.brows, st.bcols,
-                st.form, " scalar" if st.scalar else " vector") for st in sc.stds],
-            "apply_form": sc.apply_form}
+    d = {"type": sc.typ, "rows": sc.r, "cols": sc.c, "F": sc.F,
+         "standards": ["%s%s ports=%s S=%dx%d M=%dx%d %s%s" % (
+             st.fn, "" if st.mapflag else "(NULL map)", st.ports, st.srows, st.scols, st.brows, st.bcols,
+             st.form, " scalar" if st.scalar else " vector") for st in sc.stds],
+         "apply_form": sc.apply_form}
+    if getattr(sc, "scale", None) is not None:
+        # magnitude scaling of the raw measurements (draw_scale): mode and decimal exponents
+        d["scale"] = sc.scale
+    return d
 
 
 # ----------------------------------------------------------------------------- running and judging
@@ -881,14 +1049,14 @@ def judge(sc, recs):
         problems.append(("terms-header", tm["line"]))
     worst = 0.0
     worst_at = None
-    for si, st in enumerate(sc.stds):
-        for f in range(sc.F):
-            try:
-                res = check_terms(sc.typ, sc.r, sc.c, tm["E"][f], st.Sfull[f], st.Mfull[f])
-            except (Singular, IndexError, ZeroDivisionError) as e:
-                res = float("inf")
-            if not res <= worst:
-                worst, worst_at = res, (si, f)
+    for f in range(sc.F):
+        try:
+            lists = [terms_equations(sc.typ, sc.r, sc.c, tm["E"][f], st.Sfull[f], st.Mfull[f]) for st in sc.stds]
+            res, si = worst_relative(lists)
+        except (Singular, IndexError, ZeroDivisionError) as e:
+            res, si = float("inf"), 0
+        if not res <= worst:
+            worst, worst_at = res, (si, f)
     stats["terms"] = worst
     if not worst <= TOL:
         st = sc.stds[worst_at[0]]
